@@ -112,6 +112,22 @@ def run(tier, selftest):
                 ed = ea["edit"]
                 rep.violation(f"regen:edit:{ed['op']}:{ed['kind']}", f"shipped and freshly generated code differ in {keys} after the API edit {ed}",
                               {"kind": "edit", "text": case["text"], "cumulative": case["cumulative"], "edits": case["edits"] if case["cumulative"] else [ed]})
+    # equality (generated PartialEq): twin documents that differ in one parameter token
+    pairs = layoutcheck.value_pair_docs("quick", vlib.seed())
+    pin = os.path.join(vlib.scratch(), "c20_pairs.ndjson")
+    vlib.write_ndjson(pin, [{"id": i, "text": p["text"], "text2": p["text2"], "strict": True, "want": []} for i, p in enumerate(pairs)])
+    pouts = []
+    for tag, b in (("a", shipped), ("b", fresh)):
+        po = os.path.join(vlib.scratch(), f"c20_pairs_{tag}.out")
+        rc, _, err = vlib.run_harness(b, ["load-op", "--cases", pin, "--out", po], timeout=1800)
+        if rc != 0:
+            vlib.tool_error(f"load-op (pairs) failed: {err[-300:]}")
+        pouts.append([json.loads(l) for l in open(po) if l.strip()])
+    for p, xa, xb in zip(pairs, pouts[0], pouts[1]):
+        if xa.get("pair") != xb.get("pair"):
+            disagreements += 1
+            rep.violation(f"regen:equality:{p['e']}", f"shipped and freshly generated code disagree on == for documents that differ in {p['tok']} / {p['twin']} of {p['e']}: {xa.get('pair')} vs {xb.get('pair')}",
+                          {"kind": "pair", "pair": p})
     # include files: every block of every element taken from an include file (load, write, merge_includes)
     from checks import c16
     iroot = os.path.join(vlib.scratch(), "c20_inc")
@@ -156,6 +172,7 @@ def run(tier, selftest):
         "disagreements_found": disagreements,
         "api_edits_compared": nedits,
         "include_cases_compared": len(iprep),
+        "twin_documents_compared": len(pairs),
         "cases_per_kind": kinds,
         "fresh_variant_events_validated_against_parser_spec": njudged,
         "fresh_variant_events_rejected": len(rejected),
@@ -187,6 +204,19 @@ def replay(path):
             outs.append(open(eo).read())
         if outs[0] != outs[1]:
             rep.violation("regen:edit", "shipped and freshly generated code differ after an API edit", case)
+        print("replay:", "violation reproduced" if rep.new else "no violation")
+        return rep.exit_code()
+    if case.get("kind") == "pair":
+        pr = case["pair"]
+        pin = os.path.join(vlib.scratch(), "c20_pair_replay.ndjson")
+        vlib.write_ndjson(pin, [{"id": 0, "text": pr["text"], "text2": pr["text2"], "strict": True, "want": []}])
+        outs = []
+        for tag, b in (("a", shipped), ("b", fresh)):
+            po = os.path.join(vlib.scratch(), f"c20_pair_replay_{tag}.out")
+            vlib.run_harness(b, ["load-op", "--cases", pin, "--out", po])
+            outs.append(json.loads(open(po).readline()).get("pair"))
+        if outs[0] != outs[1]:
+            rep.violation("regen:equality", "shipped and freshly generated code disagree on ==", case)
         print("replay:", "violation reproduced" if rep.new else "no violation")
         return rep.exit_code()
     if case.get("kind") == "include":
